@@ -85,6 +85,125 @@ pub fn verif_parse_pake2(payload: &[u8]) -> Result<([u8; 65], [u8; 32]), Error> 
     Ok((pb, cb))
 }
 
+/// Verification hooks (feature `verif`): the derived TLV codecs of the crate-private PASE message
+/// structures, field by field (decoders hand the borrowed fields to a visitor).
+#[cfg(feature = "verif")]
+pub mod verif_tlv {
+    use super::{PBKDFParamReq, PBKDFParamResp, PBKDFParamRespParams, Pake1, Pake2, Pake3};
+    use crate::error::Error;
+    use crate::sc::{SessionParameters, VerifSessionParams as Sp};
+    use crate::tlv::{FromTLV, OctetStr, TLVElement, TLVTag, ToTLV};
+    use crate::utils::storage::WriteBuf;
+
+    fn enc<T: ToTLV>(v: &T, buf: &mut [u8]) -> Result<usize, Error> {
+        let mut wb = WriteBuf::new(buf);
+        v.to_tlv(&TLVTag::Anonymous, &mut wb)?;
+        Ok(wb.as_slice().len())
+    }
+
+    pub fn enc_pbkdf_req(
+        random: &[u8],
+        ssid: u16,
+        passcode_id: u16,
+        has_params: bool,
+        sp: Option<Sp>,
+        buf: &mut [u8],
+    ) -> Result<usize, Error> {
+        enc(
+            &PBKDFParamReq {
+                initiator_random: OctetStr::new(random),
+                initiator_ssid: ssid,
+                passcode_id,
+                has_params,
+                session_parameters: sp.map(SessionParameters::verif_new),
+            },
+            buf,
+        )
+    }
+
+    pub fn dec_pbkdf_req<R>(
+        data: &[u8],
+        f: impl FnOnce(&[u8], u16, u16, bool, Option<Sp>) -> R,
+    ) -> Result<R, Error> {
+        let v = PBKDFParamReq::from_tlv(&TLVElement::new(data))?;
+        Ok(f(
+            v.initiator_random.0,
+            v.initiator_ssid,
+            v.passcode_id,
+            v.has_params,
+            v.session_parameters.as_ref().map(|s| s.verif_fields()),
+        ))
+    }
+
+    pub fn enc_pbkdf_resp(
+        initiator_random: &[u8],
+        responder_random: &[u8],
+        ssid: u16,
+        params: Option<(u32, &[u8])>,
+        sp: Option<Sp>,
+        buf: &mut [u8],
+    ) -> Result<usize, Error> {
+        enc(
+            &PBKDFParamResp {
+                initiator_random: OctetStr::new(initiator_random),
+                responder_random: OctetStr::new(responder_random),
+                responder_ssid: ssid,
+                params: params.map(|(iterations, salt)| PBKDFParamRespParams {
+                    iterations,
+                    salt: OctetStr::new(salt),
+                }),
+                session_parameters: sp.map(SessionParameters::verif_new),
+            },
+            buf,
+        )
+    }
+
+    pub fn dec_pbkdf_resp<R>(
+        data: &[u8],
+        f: impl FnOnce(&[u8], &[u8], u16, Option<(u32, &[u8])>, Option<Sp>) -> R,
+    ) -> Result<R, Error> {
+        let v = PBKDFParamResp::from_tlv(&TLVElement::new(data))?;
+        Ok(f(
+            v.initiator_random.0,
+            v.responder_random.0,
+            v.responder_ssid,
+            v.params.as_ref().map(|p| (p.iterations, p.salt.0)),
+            v.session_parameters.as_ref().map(|s| s.verif_fields()),
+        ))
+    }
+
+    pub fn enc_pake1(pa: &[u8], buf: &mut [u8]) -> Result<usize, Error> {
+        enc(&Pake1 { pa: OctetStr::new(pa) }, buf)
+    }
+
+    pub fn dec_pake1<R>(data: &[u8], f: impl FnOnce(&[u8]) -> R) -> Result<R, Error> {
+        Ok(f(Pake1::from_tlv(&TLVElement::new(data))?.pa.0))
+    }
+
+    pub fn enc_pake2(pb: &[u8], cb: &[u8], buf: &mut [u8]) -> Result<usize, Error> {
+        enc(
+            &Pake2 {
+                pb: OctetStr::new(pb),
+                cb: OctetStr::new(cb),
+            },
+            buf,
+        )
+    }
+
+    pub fn dec_pake2<R>(data: &[u8], f: impl FnOnce(&[u8], &[u8]) -> R) -> Result<R, Error> {
+        let v = Pake2::from_tlv(&TLVElement::new(data))?;
+        Ok(f(v.pb.0, v.cb.0))
+    }
+
+    pub fn enc_pake3(ca: &[u8], buf: &mut [u8]) -> Result<usize, Error> {
+        enc(&Pake3 { ca: OctetStr::new(ca) }, buf)
+    }
+
+    pub fn dec_pake3<R>(data: &[u8], f: impl FnOnce(&[u8]) -> R) -> Result<R, Error> {
+        Ok(f(Pake3::from_tlv(&TLVElement::new(data))?.ca.0))
+    }
+}
+
 /// Verification hooks: read-only view of the window / in-progress state.
 #[cfg(feature = "verif")]
 impl Pase {
